@@ -170,6 +170,95 @@ def aggStep (L : Int → Val → Int) (c : Cfg) (st : AggSt) : Op → AggSt
 def aggRun (L : Int → Val → Int) (c : Cfg) (st : AggSt) (ops : List Op) : AggSt :=
   ops.foldl (aggStep L c) st
 
+
+/-! ## explicit-bucket histogram: the collection step (`histogram.delta` / `.cumulative`) -/
+
+/-- `metricdata.HistogramDataPoint` as a reader sees it -/
+structure HDPoint where
+  attr : Nat
+  count : Nat
+  bounds : List Int
+  counts : List Nat
+  sum : Int
+  min : Option Int
+  max : Option Int
+deriving DecidableEq, Repr
+
+instance : Inhabited HDPoint := ⟨⟨0, 0, [], [], 0, none, none⟩⟩
+
+/-- the body of the loop over `s.values`: every field of the recycled point is assigned (`Bounds` is a fresh clone
+of the aggregator's boundaries, `BucketCounts` the accumulator's counts — handed over by `delta`, which then
+forgets the accumulator, cloned by `cumulative`) -/
+def writeHPoint (noMinMax noSum : Bool) (bounds : List Int) (_old : HDPoint) (attr : Nat) (h : Hist) : HDPoint :=
+  { attr := attr
+    count := h.count
+    bounds := bounds
+    counts := h.counts
+    sum := if !noSum then h.total else 0
+    min := if !noMinMax then some h.min else none
+    max := if !noMinMax then some h.max else none }
+
+def zipWriteH (noMinMax noSum : Bool) (bounds : List Int) : List HDPoint → List (Nat × Hist) → List HDPoint
+  | old :: ds, av :: r => writeHPoint noMinMax noSum bounds old av.1 av.2 :: zipWriteH noMinMax noSum bounds ds r
+  | _, _ => []
+
+def hCollectInto (noMinMax noSum : Bool) (bounds : List Int) (order : List (Nat × Hist)) (dest : Slice HDPoint) :
+    Slice HDPoint :=
+  let d := dest.reset order.length default
+  ⟨zipWriteH noMinMax noSum bounds d.vis order, d.hid⟩
+
+def lookupH : List (Nat × Hist) → Nat → Option Hist
+  | [], _ => none
+  | (k, p) :: r, a => if k = a then some p else lookupH r a
+
+def upsertH : List (Nat × Hist) → Nat → Hist → List (Nat × Hist)
+  | [], a, p => [(a, p)]
+  | (k, q) :: r, a, p => if k = a then (k, p) :: r else (k, q) :: upsertH r a p
+
+def hLimitAttr (limit : Nat) (vals : List (Nat × Hist)) (a : Nat) : Nat :=
+  if limit > 0 then
+    if (lookupH vals a).isNone ∧ vals.length ≥ limit - 1 then overflowAttr else a
+  else a
+
+/-- `histValues.measure` with the attribute map; `bounds` are the sorted boundaries. With `noSum` the
+accumulator does not add to its total (`if !s.noSum { b.sum(value) }`) -/
+def hMeasure (bounds : List Int) (limit : Nat) (noSum : Bool) (vals : List (Nat × Hist)) (a : Nat) (v : Int) :
+    List (Nat × Hist) :=
+  let a' := hLimitAttr limit vals a
+  let idx := searchIdx bounds v
+  let h := match lookupH vals a' with
+    | some h => h
+    | none => Hist.new bounds.length v
+  upsertH vals a' (if noSum then h.bin idx v else (h.bin idx v).addSum v)
+
+def hInOrder (vals : List (Nat × Hist)) (order : List Nat) : List (Nat × Hist) :=
+  order.filterMap (fun a => (lookupH vals a).map (fun p => (a, p)))
+
+inductive HOp
+  | meas (a : Nat) (v : Int)
+  | collect (order : List Nat)
+  | fresh (noMinMax noSum : Bool)     -- another aggregator (same boundaries, other flags) takes over the destination
+deriving Repr
+
+structure HSt where
+  vals : List (Nat × Hist)
+  dest : Slice HDPoint
+  noMinMax : Bool
+  noSum : Bool
+  reports : List (List HDPoint)
+
+def hStep (delta : Bool) (limit : Nat) (bounds : List Int) (st : HSt) : HOp → HSt
+  | .meas a v => { st with vals := hMeasure bounds limit st.noSum st.vals a v }
+  | .collect order =>
+    let d := hCollectInto st.noMinMax st.noSum bounds (hInOrder st.vals order) st.dest
+    { st with dest := d, reports := st.reports ++ [d.vis], vals := if delta then [] else st.vals }
+  | .fresh nmm ns => { st with vals := [], noMinMax := nmm, noSum := ns }
+
+/-- `newHistogram` (clone + sort of the boundaries) and a run of operations -/
+def hRun (delta : Bool) (limit : Nat) (rawBounds : List Int) (noMinMax noSum : Bool) (dest : Slice HDPoint)
+    (ops : List HOp) : HSt :=
+  ops.foldl (hStep delta limit (sortBounds rawBounds)) ⟨[], dest, noMinMax, noSum, []⟩
+
 /-! ## the in-place loop of `expoBuckets.downscale` -/
 
 /-- `for i := 1; i < len; i++ { idx := i + offset; if idx % steps == 0 { c[idx/steps] = c[i]; continue };
